@@ -1,6 +1,7 @@
 package main
 
 import (
+	"go/types"
 	"flag"
 	"fmt"
 	"os"
@@ -199,6 +200,14 @@ func cmdDump(args []string) int {
 					rs = append(rs, fa.R.R(r))
 				}
 				fmt.Printf("   return %s\n", strings.Join(rs, " , "))
+				for _, r := range x.Results {
+					if sl, ok := r.Type().Underlying().(*types.Slice); ok {
+						if bt, ok := sl.Elem().Underlying().(*types.Basic); ok && bt.Kind() == types.Uint8 {
+							ps, l := fa.BufferPlaces(r)
+							fmt.Printf("      bytes(len %s): %s\n", l, placesString(ps))
+						}
+					}
+				}
 			default:
 				fmt.Printf("   %s\n", in.String())
 			}
